@@ -48,7 +48,10 @@ class Streams:
 # --------------------------------------------------------------------------------------
 # violations
 # --------------------------------------------------------------------------------------
-class Violation(Exception):
+class Violation(BaseException):
+    """an oracle failed. Deliberately not an Exception: no `except Exception` in a world (written to
+    classify what the *library* raises) can swallow it"""
+
     def __init__(self, prop, oracle, culprit, detail):
         super().__init__(f"{prop} {oracle} {culprit}: {detail}")
         self.prop = prop
